@@ -3,6 +3,8 @@ package sim
 import (
 	"fmt"
 
+	hg "github.com/mosaicnetworks/babble/src/hashgraph"
+
 	_state "github.com/mosaicnetworks/babble/src/node/state"
 )
 
@@ -93,6 +95,7 @@ func (c *Cluster) opRejoin(s *Step) {
 // end-state checks.
 func (c *Cluster) fairSuffix(spec *runSpec) {
 	c.fairMode = true
+	c.drainAllTasks()
 	c.exec(&Step{Op: "heal"})
 	for _, n := range c.nodes {
 		if n.running() {
@@ -206,4 +209,63 @@ func (c *Cluster) opByz(s *Step) {
 	if c.byzHandler != nil {
 		c.byzHandler(s)
 	}
+}
+
+// opReFastForward: a running node that has fallen behind goes through the
+// real Node.fastForward() again (CatchingUp), as a node restarted with fast-sync
+// would. It is only done when the reset cannot make the node forget events of
+// its own (which would turn it into an equivocator through no fault of the code).
+func (c *Cluster) opReFastForward(s *Step) {
+	a := c.nodeAt(s.A)
+	if a == nil || !a.running() || a.state() != _state.Babbling || a.leaving || a.isObserver || a.silent {
+		return
+	}
+	if a.task != nil && !a.task.done {
+		return
+	}
+	if c.parkedCount(a) > 0 {
+		return
+	}
+	// the anchor it would get: highest block index among its reachable peers
+	best := -1
+	var bestFrame *hg.Frame
+	for _, p := range selectablePeers(a) {
+		m := c.byPub[p.PubKeyString()]
+		if m == nil || !m.running() || m.silent || !c.net.reachable(a, m) || m.state() != _state.Babbling {
+			continue
+		}
+		b, f, err := m.core().GetAnchorBlockWithFrame()
+		if err != nil {
+			continue
+		}
+		if b.Index() > best {
+			best, bestFrame = b.Index(), f
+		}
+	}
+	if bestFrame == nil || best <= a.node.GetLastBlockIndex() {
+		return
+	}
+	// all of a's own events must be covered by the frame
+	maxOwn := -1
+	if r, ok := bestFrame.Roots[a.pubHex]; ok && r != nil {
+		for _, fe := range r.Events {
+			if fe.Core.Index() > maxOwn {
+				maxOwn = fe.Core.Index()
+			}
+		}
+	}
+	for _, fe := range bestFrame.Events {
+		if fe.Core.Creator() == a.pubHex && fe.Core.Index() > maxOwn {
+			maxOwn = fe.Core.Index()
+		}
+	}
+	if maxOwn < a.core().Seq() {
+		c.stats.probe("reff-skipped-own-events-above-frame")
+		return
+	}
+	// pending pool content would be lost for the ledger's purposes only if the node drops it; it does not
+	c.stats.probe("re-fast-forward")
+	a.node.SimTransition(_state.CatchingUp)
+	err := a.node.SimFastForward()
+	c.onFastForwardDone(a, err)
 }
